@@ -1,9 +1,289 @@
-//! `ckc-probe oracle <property> ...`: evaluate a property's own predicate directly on the real
-//! code, against an independent rule-based reference, to FIND a concrete failing input once a proof
-//! obligation or the correspondence broke. Never used to conclude that a property holds.
+//! `ckc-probe oracle <property> --seed <u64> --tier quick|thorough`: evaluate a property's own
+//! predicate directly on the real code, against an independent rule-based reference (refeval.rs),
+//! to FIND a concrete failing input. Never used to conclude that a property holds.
+//!
+//! Output: one `FAIL {json}` line per violation (at most MAXF per sub-check, the ones that come
+//! first in enumeration order, so the output is a function of the seed), nothing otherwise.
+//! This file: reporting, threading and shared helpers. The searches are in oracle_a.rs (C01-C09,
+//! evaluator properties) and oracle_b.rs (C10-C20).
+
+use crate::refeval::{mix, Sm64};
+use std::cell::Cell;
+use std::panic::{catch_unwind, AssertUnwindSafe};
+use std::sync::atomic::{AtomicU64, AtomicUsize, Ordering::Relaxed};
+use std::sync::Mutex;
+
+pub const MAXF: usize = 5;
+
+thread_local! { static GUARDED: Cell<bool> = const { Cell::new(false) }; }
+
+/// Run a crate call; None if it unwound.
+#[inline]
+pub fn g<T>(f: impl FnOnce() -> T) -> Option<T> {
+    let prev = GUARDED.with(|c| c.replace(true));
+    let r = catch_unwind(AssertUnwindSafe(f)).ok();
+    GUARDED.with(|c| c.set(prev));
+    r
+}
+pub fn show<T: std::fmt::Display>(o: Option<T>) -> String {
+    o.map_or_else(|| "panic".to_string(), |v| v.to_string())
+}
+pub fn showd<T: std::fmt::Debug>(o: Option<T>) -> String {
+    o.map_or_else(|| "panic".to_string(), |v| format!("{v:?}"))
+}
+/// `op w1 w2 ...`
+pub fn cs<T: std::fmt::Display>(op: &str, ws: &[T]) -> String {
+    let mut s = op.to_string();
+    for w in ws {
+        s.push(' ');
+        s.push_str(&w.to_string());
+    }
+    s
+}
+/// Scalar values of a text, for the parsecard / parsehand / bcindex case formats.
+pub fn scalars(op: &str, s: &str) -> String {
+    cs(op, &s.chars().map(|c| c as u32).collect::<Vec<_>>())
+}
+fn js(s: &str) -> String {
+    let mut o = String::from("\"");
+    for c in s.chars() {
+        match c {
+            '"' => o.push_str("\\\""),
+            '\\' => o.push_str("\\\\"),
+            c if (c as u32) < 0x20 || c as u32 == 0x7f => o.push_str(&format!("\\u{:04x}", c as u32)),
+            c => o.push(c),
+        }
+    }
+    o.push('"');
+    o
+}
+
+/// One sub-check: keeps the MAXF violations with the smallest enumeration position `ord`.
+pub struct Sub {
+    name: &'static str,
+    n: AtomicUsize,
+    bound: AtomicU64,
+    seq: AtomicU64,
+    kept: Mutex<Vec<(u64, String)>>,
+}
+impl Sub {
+    /// Is a violation at position `ord` still of interest? (monotone: once false, stays false)
+    #[inline]
+    pub fn want(&self, ord: u64) -> bool {
+        ord <= self.bound.load(Relaxed)
+    }
+    pub fn open(&self) -> bool {
+        self.n.load(Relaxed) < MAXF
+    }
+    pub fn next_ord(&self) -> u64 {
+        self.seq.fetch_add(1, Relaxed)
+    }
+    pub fn put(&self, ord: u64, case: &str, what: &str, exp: &str, act: &str) {
+        let line = format!(
+            "FAIL {{\"case\":{},\"what\":{},\"expected\":{},\"actual\":{}}}",
+            js(case),
+            js(&format!("{}: {}", self.name, what)),
+            js(exp),
+            js(act)
+        );
+        let mut k = self.kept.lock().unwrap();
+        k.push((ord, line));
+        k.sort_by_key(|a| a.0);
+        k.truncate(MAXF);
+        if k.len() == MAXF {
+            self.bound.store(k[MAXF - 1].0, Relaxed);
+        }
+        self.n.fetch_add(1, Relaxed);
+    }
+}
+/// Sequential sub-checks: position = order of discovery.
+macro_rules! fail {
+    ($sub:expr, $case:expr, $what:expr, $exp:expr, $act:expr) => {{
+        let s: &crate::oracle::Sub = $sub;
+        let o = s.next_ord();
+        if s.want(o) {
+            s.put(o, &$case, &$what, &$exp.to_string(), &$act.to_string());
+        }
+    }};
+}
+/// Parallel sub-checks: explicit position so that the kept set does not depend on scheduling.
+macro_rules! fail_at {
+    ($sub:expr, $ord:expr, $case:expr, $what:expr, $exp:expr, $act:expr) => {{
+        let s: &crate::oracle::Sub = $sub;
+        let o: u64 = $ord;
+        if s.want(o) {
+            s.put(o, &$case, &$what, &$exp.to_string(), &$act.to_string());
+        }
+    }};
+}
+pub(crate) use {fail, fail_at};
+
+pub struct Ctx {
+    pub seed: u64,
+    pub thorough: bool,
+    subs: Mutex<Vec<&'static Sub>>,
+    t0: std::time::Instant,
+}
+impl Ctx {
+    pub fn sub(&self, name: &'static str) -> &'static Sub {
+        let s: &'static Sub = Box::leak(Box::new(Sub {
+            name,
+            n: AtomicUsize::new(0),
+            bound: AtomicU64::new(u64::MAX),
+            seq: AtomicU64::new(0),
+            kept: Mutex::new(Vec::new()),
+        }));
+        self.subs.lock().unwrap().push(s);
+        s
+    }
+    /// Print (once) the violations of all sub-checks finished so far.
+    pub fn flush(&self, phase: &str) {
+        let subs: Vec<&'static Sub> = std::mem::take(&mut *self.subs.lock().unwrap());
+        for s in subs {
+            let k = s.kept.lock().unwrap();
+            for (_, l) in k.iter() {
+                println!("{l}");
+            }
+            let n = s.n.load(Relaxed);
+            if n > 0 {
+                eprintln!("oracle: sub-check '{}': {} violating inputs seen, {} printed", s.name, n, k.len());
+            }
+        }
+        eprintln!("oracle: [{:7.2}s] {phase}", self.t0.elapsed().as_secs_f64());
+    }
+    pub fn rng(&self, salt: u64) -> Sm64 {
+        Sm64::new(mix(self.seed, salt))
+    }
+    pub fn pick(&self, quick: u64, thorough: u64) -> u64 {
+        if self.thorough {
+            thorough
+        } else {
+            quick
+        }
+    }
+}
+
+/// Run f(0..n) on all cores; items are handed out in increasing order.
+pub fn par(n: usize, f: impl Fn(usize) + Sync) {
+    let threads = std::thread::available_parallelism().map_or(16, std::num::NonZero::get).max(1);
+    let next = AtomicUsize::new(0);
+    std::thread::scope(|s| {
+        for _ in 0..threads {
+            s.spawn(|| loop {
+                let i = next.fetch_add(1, Relaxed);
+                if i >= n {
+                    break;
+                }
+                f(i);
+            });
+        }
+    });
+}
+
+/// All (a, b), a < b < 52 in lexicographic order: the work items of the subset enumerations.
+pub fn prefixes() -> Vec<(usize, usize)> {
+    (0..52).flat_map(|a| (a + 1..52).map(move |b| (a, b))).collect()
+}
+/// All k-subsets {a < b < ...} of 0..52 with the given two smallest members, lexicographically.
+#[inline]
+pub fn combos2(k: usize, a: usize, b: usize, mut f: impl FnMut(&[usize])) {
+    let mut ix = [0usize; 7];
+    ix[0] = a;
+    ix[1] = b;
+    for j in 2..k {
+        ix[j] = ix[j - 1] + 1;
+    }
+    if ix[k - 1] >= 52 {
+        return;
+    }
+    loop {
+        f(&ix[..k]);
+        let mut i = k;
+        while i > 2 && ix[i - 1] == 52 - k + i - 1 {
+            i -= 1;
+        }
+        if i == 2 {
+            return;
+        }
+        ix[i - 1] += 1;
+        for j in i..k {
+            ix[j] = ix[j - 1] + 1;
+        }
+    }
+}
+/// Deck indices packed 6 bits each (a per-hand seed salt).
+#[inline]
+pub fn pack(ix: &[usize]) -> u64 {
+    ix.iter().fold(1u64, |a, &i| (a << 6) | i as u64)
+}
+pub fn leak(s: String) -> &'static str {
+    Box::leak(s.into_boxed_str())
+}
+
+fn usage() -> ! {
+    eprintln!("usage: ckc-probe oracle <C01..C20> [--seed <u64>] [--tier quick|thorough]");
+    std::process::exit(2);
+}
 
 pub fn oracle(args: &[String]) {
-    let _ = args;
-    eprintln!("oracle: not built yet");
-    std::process::exit(2);
+    let mut id: Option<String> = None;
+    let mut seed = 1u64;
+    let mut thorough = false;
+    let mut i = 0;
+    while i < args.len() {
+        match args[i].as_str() {
+            "--seed" => {
+                seed = args.get(i + 1).and_then(|s| s.parse().ok()).unwrap_or_else(|| usage());
+                i += 2;
+            },
+            "--tier" => {
+                thorough = match args.get(i + 1).map(String::as_str) {
+                    Some("quick") => false,
+                    Some("thorough") => true,
+                    _ => usage(),
+                };
+                i += 2;
+            },
+            a if !a.starts_with('-') && id.is_none() => {
+                id = Some(a.to_uppercase());
+                i += 1;
+            },
+            _ => usage(),
+        }
+    }
+    let id = id.unwrap_or_else(|| usage());
+    type F = fn(&Ctx);
+    let table: [(&str, F); 20] = [
+        ("C01", crate::oracle_a::c01),
+        ("C02", crate::oracle_a::c02),
+        ("C03", crate::oracle_a::c03),
+        ("C04", crate::oracle_a::c04),
+        ("C05", crate::oracle_a::c05),
+        ("C06", crate::oracle_a::c06),
+        ("C07", crate::oracle_a::c07),
+        ("C08", crate::oracle_a::c08),
+        ("C09", crate::oracle_a::c09),
+        ("C10", crate::oracle_b::c10),
+        ("C11", crate::oracle_b::c11),
+        ("C12", crate::oracle_b::c12),
+        ("C13", crate::oracle_b::c13),
+        ("C14", crate::oracle_b::c14),
+        ("C15", crate::oracle_b::c15),
+        ("C16", crate::oracle_b::c16),
+        ("C17", crate::oracle_b::c17),
+        ("C18", crate::oracle_b::c18),
+        ("C19", crate::oracle_b::c19),
+        ("C20", crate::oracle_b::c20),
+    ];
+    let Some((_, f)) = table.iter().find(|(n, _)| *n == id) else { usage() };
+    // crate panics inside g() are expected and silent; anything else is a bug of the oracle itself
+    std::panic::set_hook(Box::new(|info| {
+        if !GUARDED.with(Cell::get) {
+            eprintln!("oracle: INTERNAL ERROR (no verdict): {info}");
+        }
+    }));
+    let ctx = Ctx { seed, thorough, subs: Mutex::new(Vec::new()), t0: std::time::Instant::now() };
+    let ok = catch_unwind(AssertUnwindSafe(|| f(&ctx))).is_ok();
+    ctx.flush(if ok { "done" } else { "aborted by an internal error" });
+    std::process::exit(0);
 }
